@@ -42,7 +42,12 @@ ASSUMPTIONS = ["'mask' on a batch of targets masks an entry for the whole batch 
                "kernel matrices are Gram matrices of a covariance function (hypothesis of mask_eq_delete)"]
 EXHAUSTIVE = False
 
-FILL = -999.0
+def fill_value():
+    """The fill value the implementation uses under 'fill' (read from the settings class at run time; the theorems hold
+    for every fill value, the driver is simply given the same one)."""
+    from gpytorch import settings
+    return float(settings.observation_nan_policy._fill_value)
+
 SEQS_QUICK = [("mask",), ("fill",), ("mask", "fill"), ("fill", "mask"), ("mask", "fill", "mask"),
               ("fill", "mask", "fill")]
 SEQS_THOROUGH = SEQS_QUICK + [("ignore", "mask"), ("ignore", "fill"), ("ignore", "fill", "mask")]
@@ -90,6 +95,20 @@ def build_model(ctx, kind, idx, thorough=False):
             model, lik, tx, ty, desc = G.build_multitask_gp(rng, n=rng.randint(2, 3), t=2, lik_rank=rng.choice([0, 0, 1]))
         test_x = G.random_test_x(rng, desc, s_max=3)
     desc["s"] = test_x.shape[-2]
+    # OBSERVED targets that are exactly equal to a sentinel: 0.0 and the NaN fill value itself (integer / centred /
+    # count data).  A value test instead of an isnan test would drop or corrupt them.
+    flat = ty.view(-1)
+    sent = []
+    if idx % 2 == 0:
+        flat[rng.randrange(flat.numel())] = 0.0
+        sent.append("0.0")
+    if idx % 3 != 1:
+        flat[rng.randrange(flat.numel())] = fill_value()
+        sent.append("fill-value")
+    if idx % 4 == 3:
+        flat[rng.randrange(flat.numel())] = -0.0
+        sent.append("-0.0")
+    desc["sentinel_targets"] = sent
     return model, lik, tx, ty, desc, test_x, rng
 
 
@@ -113,8 +132,8 @@ def nan_line(P, b, obs):
     N, Sx = P["N"], P["S"]
     return " ".join(["nan", str(N), str(Sx), C.mat_tokens(P["J"][b]), C.vec_tokens(P["mj"][b]),
                      C.mat_tokens(P["Strain"][b]), C.vec_tokens(P["y"][b]),
-                     f"{N} 1 " + " ".join("1" if o else "0" for o in obs), f"1 1 {C.rat_str(FILL)}",
-                     f"1 1 {C.rat_str(FILL)}",
+                     f"{N} 1 " + " ".join("1" if o else "0" for o in obs), f"1 1 {C.rat_str(fill_value())}",
+                     f"1 1 {C.rat_str(fill_value())}",
                      # branch configuration of the generated code: eager split (joint <= 512), dim()==2 iff unbatched
                      str((8 if N + Sx <= 512 else 0) + (16 if tuple(P["B"]) == () else 0))])
 
@@ -235,9 +254,14 @@ def run_real(ctx, model, lik, tx, ty, desc, test_x, obs_full, union, seqs, rng, 
     if quick:
         rng.shuffle(seq_list)
         seq_list = sorted(seq_list[:4], key=len)
+    first = True
     for seq in seq_list:
         for fast in fasts:
-            G.reset_caches(model)
+            # the very first sequence after `set_train_data(new NaN pattern)` runs WITHOUT resetting anything: whatever the
+            # previous pattern's predictions cached on this object must have been invalidated by set_train_data itself
+            if not first:
+                G.reset_caches(model)
+            first = False
             steps = []
             used = []
             for pol in seq:
